@@ -369,6 +369,16 @@ func (ci *ChainImpl) Add(h Hdr) (out string, wasKilled bool) {
 // Op executes one line of the chain vocabulary on the implementation.
 func (ci *ChainImpl) Op(line string) string {
 	ws := strings.Fields(line)
+	if len(ws) >= 2 && ws[0] == "verify" {
+		if e, err := strconv.Atoi(ws[1]); err == nil {
+			ci.Cfg.MerkleRoot.MaxBlockHeightExcess = e
+		}
+	}
+	if ci.Engine != nil {
+		if out, ok := ci.QueryOp(line); ok {
+			return out
+		}
+	}
 	switch {
 	case len(ws) == 1 && ws[0] == "reset":
 		if err := ci.Reset(); err != nil {
@@ -609,4 +619,19 @@ func randomHistory(rng *rand.Rand, n int, salt uint32, allowZero bool, extremes 
 		order = append(order[:i+1], append([]int{order[rng.Intn(i+1)]}, order[i+1:]...)...)
 	}
 	return nodes, order
+}
+
+func shaStr(s string) [32]byte { return sha256.Sum256([]byte(s)) }
+
+// hexToWire converts a display hash to wire order.
+func hexToWire(s string) ([32]byte, error) {
+	var r [32]byte
+	b, err := hex.DecodeString(s)
+	if err != nil || len(b) != 32 {
+		return r, errors.New("bad hash")
+	}
+	for i := range b {
+		r[i] = b[31-i]
+	}
+	return r, nil
 }
